@@ -327,6 +327,7 @@ func runC08(e *Engine, r *Report) {
 	ruleOpenSetsOnDiskIndex(e, r)
 	ruleSnapshotJobExclusion(e, r)
 	ruleApplyIndexAtomic(e, r)
+	ruleJobRegistered(e, r)
 	ruleSessionBytesWritten(e, r)
 	// a snapshot labelled N holds exactly the entries up to N: the applied index moves in the
 	// same critical section as the user update (C02: setApplied on every exit; C11: lock held at the user call)
